@@ -148,6 +148,15 @@ theorem connBlock_td (s : St) (p : Option Nat) (b : Bool) :
 @[simp] theorem connBlock_trace (s : St) (p : Option Nat) (b : Bool) : (connBlock s p b).trace = s.trace := (connBlock_td s p b).1
 @[simp] theorem connBlock_depth (s : St) (p : Option Nat) (b : Bool) : (connBlock s p b).depth = s.depth := (connBlock_td s p b).2
 
+theorem dropHandle_td (s : St) (g : Nat) : (dropHandle s g).trace = s.trace ∧ (dropHandle s g).depth = s.depth := by
+  unfold dropHandle
+  split
+  · exact ⟨rfl, rfl⟩
+  · simp only
+    split <;> split <;> simp
+@[simp] theorem dropHandle_trace (s : St) (g : Nat) : (dropHandle s g).trace = s.trace := (dropHandle_td s g).1
+@[simp] theorem dropHandle_depth (s : St) (g : Nat) : (dropHandle s g).depth = s.depth := (dropHandle_td s g).2
+
 theorem collectStep_td (s s' : St) (h : collectStep s = some s') : s'.trace = s.trace ∧ s'.depth = s.depth := by
   unfold collectStep at h
   split at h
@@ -155,7 +164,9 @@ theorem collectStep_td (s s' : St) (h : collectStep s = some s') : s'.trace = s.
   · split at h
     · simp at h; subst h
       split <;> simp
-    · simp at h
+    · split at h
+      · simp at h; subst h; simp
+      · simp at h
 
 theorem collectN_td (n : Nat) (s : St) : (collectN n s).trace = s.trace ∧ (collectN n s).depth = s.depth := by
   induction n generalizing s with
